@@ -1171,6 +1171,19 @@ func (x *Exec) enterLoop(fn *ssa.Function, fc *FuncContract, li *loopInfo, st *S
 			}
 		}
 	}
+	// the hidden position of a range-over-string loop advances in the loop that contains its Next
+	for b := range li.blocks {
+		for _, in := range b.Instrs {
+			if nx, ok := in.(*ssa.Next); ok && nx.IsString {
+				if rg, ok := nx.Iter.(*ssa.Range); ok {
+					name := rangePosName(rg)
+					if old, has := ns.ghost[name]; has {
+						ns.ghost[name] = x.c.Fresh(fmt.Sprintf("L%d_%s", li.ordinal, name), old.sort)
+					}
+				}
+			}
+		}
+	}
 	gensBefore := x.gens
 	x.applyEffects(ns, eff)
 	if x.loopTags == nil {
